@@ -277,7 +277,8 @@ WitnessLaws ==
 
 -----------------------------------------------------------------------------
 (* transactions: inputs [sig, wit, pk, avail]: pk the script of the spent  *)
-(* output, avail whether the output is "unspent", "spent" or "missing"      *)
+(* output, avail whether the output is "unspent", "spent" or "missing", or   *)
+(* "null" for a coinbase input (null previous outpoint, nothing is spent)    *)
 
 InKinds ==
     [ legacy    |-> [sig |-> Direct(Fill(9, 71)) \o Key, wit |-> << >>, pk |-> P2PKH, avail |-> "unspent"],
@@ -292,7 +293,15 @@ InKinds ==
       shwsh     |-> [sig |-> Direct(P2WSH), wit |-> <<<<OP0>>, Multi22>>, pk |-> P2SH, avail |-> "unspent"],
       taproot   |-> [sig |-> << >>, wit |-> <<Fill(9, 64)>>, pk |-> P2TR, avail |-> "unspent"],
       missing   |-> [sig |-> <<OP1>>, wit |-> << >>, pk |-> <<OP1>>, avail |-> "missing"],
-      spent     |-> [sig |-> Direct(P2WSH), wit |-> <<<<CHECKSIG>>>>, pk |-> P2WSH, avail |-> "spent"] ]
+      spent     |-> [sig |-> Direct(P2WSH), wit |-> <<<<CHECKSIG>>>>, pk |-> P2WSH, avail |-> "spent"],
+      \* coinbase inputs (avail "null": the previous outpoint is the null outpoint,
+      \* there is no spent output); the opcodes of a coinbase signature script
+      \* count like those of any other: pushes only, bare CHECKSIG bytes,
+      \* CHECKMULTISIG after OP_n (20 each: legacy counting), sigop bytes inside a push
+      cbPush    |-> [sig |-> <<3, 1, 2, 3, 1, 66>>, wit |-> << >>, pk |-> << >>, avail |-> "null"],
+      cbSig     |-> [sig |-> <<3, 1, 2, 3, CHECKSIG, CHECKSIGVERIFY, CHECKSIG>>, wit |-> << >>, pk |-> << >>, avail |-> "null"],
+      cbMulti   |-> [sig |-> <<3, 1, 2, 3, 83, CHECKMULTISIG, OP16, CHECKMULTISIGVERIFY>>, wit |-> <<Fill(0, 32)>>, pk |-> << >>, avail |-> "null"],
+      cbInPush  |-> [sig |-> <<3, 1, 2, 3, 4, CHECKSIG, CHECKMULTISIG, CHECKSIG, CHECKSIG>>, wit |-> << >>, pk |-> << >>, avail |-> "null"] ]
 InNames == DOMAIN InKinds
 \* two-input transactions: all pairs in the thorough tier, a core otherwise
 PairNames == IF Thorough THEN InNames ELSE {"sigop", "p2sh23", "p2shBad", "wsh", "shwsh", "wpkh", "missing", "spent"}
